@@ -101,6 +101,7 @@ type Sched struct {
 	Seq      uint64 // global event sequence (invoke/return stamps)
 	MaxSwitchLog int
 	NSwitches uint64
+	NPreempt  uint64 // switches that happened inside a task (preemption or blocking), not at task exit
 	Contended uint64 // lock acquisitions that had to block
 	ReaderOvertake uint64
 	lastSite uint32
@@ -270,6 +271,9 @@ func (s *Sched) dispatchFrom(t *Task, why string) {
 		return
 	}
 	s.NSwitches++
+	if why != "exit" {
+		s.NPreempt++
+	}
 	if len(s.Switches) < s.MaxSwitchLog {
 		s.Switches = append(s.Switches, Switch{Tick: Steps, From: t.ID, To: next.ID, Site: s.lastSite, Why: why})
 	}
